@@ -145,7 +145,7 @@ pub fn run(ctx: &Ctx) -> i32 {
     let mut rep = Report::new(
         ctx,
         "hostile inputs: random Unicode / control characters, token soup over the analyzer's own vocabulary (all mnemonics, registers, directives, CSR names, punctuation, 32-bit boundary numbers), \
-         line- and token-level mutations of valid programs (deleted / duplicated / swapped / truncated lines, stray characters, CR, unterminated strings, .macro without end, huge .word lists, stack-pointer and constant overflows), valid programs with odd semantics (jumps and calls retargeted to arbitrary labels, returns turned into jumps and back, sp reloaded from memory / copied through a frame pointer / moved inside loops, narrow stores through it, labels named like the analyzer's internal ones), \
+         line- and token-level mutations of valid programs (deleted / duplicated / swapped / truncated lines, stray characters, CR, unterminated strings, .macro without end, huge .word lists, stack-pointer and constant overflows), valid programs with odd semantics (jumps and calls retargeted to arbitrary labels, returns turned into jumps and back, sp reloaded from memory / copied through a frame pointer / moved inside loops, narrow stores through it, labels named like the analyzer's internal ones), the constant-folding tables of C08 (every operator x 24x24 boundary operands), \
          structurally extreme inputs in a scaling series (n, 2n, 4n, 8n: dots, parentheses, labels, long lines, long straight-line code, many functions, branch ladders), sizes up to 64 KiB. Each input is linted through RVParser::run \
          in a child process (4 GiB address space, 8 MiB stack, 20 s watchdog, sweep limit hook) in this build of the harness, and a sample through `rva lint` in pretty / --compact / --json / --yaml / --debug / --all-files / --no-output, dev and release builds. \
          Refuting events: panic, death by signal (stack overflow, abort), sweep limit exceeded, watchdog. distinct_nontrivial = distinct inputs linted",
@@ -164,6 +164,12 @@ pub fn run(ctx: &Ctx) -> i32 {
             let odd = hostile::semantic_mutant(&mut rng);
             inputs.push(("semantic-mutant".to_string(), crate::print::print(&odd, &crate::print::Style::plain(), &mut Rng::new(1)).text));
         }
+    }
+    // the folding tables of C08: every boundary pair of every operator reaches the constant folder
+    // through the whole pipeline (a panic there is this property's subject, a wrong value C08's)
+    for op in crate::ast::ALL_ALU {
+        let (p, _) = super::c08::fold_table_program(op);
+        inputs.push(("fold-table".to_string(), crate::print::print(&p, &crate::print::Style::base(), &mut Rng::new(1)).text));
     }
     for scale in [1_000usize, 2_000, 4_000, 8_000, 16_000, 32_000, 64_000] {
         for (name, text) in hostile::extremes(&mut rng, scale) {
